@@ -1205,7 +1205,15 @@ class Interp(object):
         if isinstance(v, SObj):
             return self.call_method(v, "__abs__", [])
         if isinstance(v, (int, Num, SBool)):
-            return norm(abs(Num.of(v)))
+            x = Num.of(v)
+            if not x.is_concrete():
+                # when the sign is already decided by the path condition, avoid the if-then-else term
+                ge = zb(x >= 0)
+                if not self._feasible(z3.Not(ge)):
+                    return norm(x)
+                if not self._feasible(ge):
+                    return norm(-x)
+            return norm(abs(x))
         raise PyRaise("TypeError", "bad operand type for abs(): %s" % type_name(v))
 
     def b_int(self, v=0):
